@@ -76,6 +76,8 @@ func (o Obj) Build() metav1.Object {
 		return &corev1.Event{ObjectMeta: o.meta(), InvolvedObject: corev1.ObjectReference{Kind: o.InvKind, Namespace: o.InvNS, Name: o.InvName}}
 	case "secret":
 		return &corev1.Secret{ObjectMeta: o.meta()}
+	case "node":
+		return &corev1.Node{ObjectMeta: o.meta()}
 	case "rc":
 		return &corev1.ReplicationController{ObjectMeta: o.meta(), Spec: corev1.ReplicationControllerSpec{Selector: copyMap(o.WLabels)}}
 	case "rs":
@@ -186,6 +188,12 @@ func TypedList(kind string, objs []Obj, rv string) runtime.Object {
 			l.Items = append(l.Items, *o.Build().(*corev1.Secret))
 		}
 		return l
+	case "node":
+		l := &corev1.NodeList{ListMeta: lm}
+		for _, o := range objs {
+			l.Items = append(l.Items, *o.Build().(*corev1.Node))
+		}
+		return l
 	}
 	panic("TypedList: " + kind)
 }
@@ -211,6 +219,8 @@ func Describe(m metav1.Object) Obj {
 		o.InvKind, o.InvNS, o.InvName = x.InvolvedObject.Kind, x.InvolvedObject.Namespace, x.InvolvedObject.Name
 	case *corev1.Secret:
 		o.Kind = "secret"
+	case *corev1.Node:
+		o.Kind = "node"
 	case *corev1.ReplicationController:
 		o.Kind = "rc"
 	case *appsv1.ReplicaSet:
